@@ -84,6 +84,7 @@ type world struct {
 	nextAg  uint32
 	free    []string
 	anyDead bool
+	ghosts  []*mclient
 	removedViaRequest map[string]bool
 }
 
@@ -265,6 +266,9 @@ func (w *world) waitGone(m *mclient) *core.Violation {
 }
 
 func (w *world) drop(m *mclient) {
+	if m.dead != "" || m.stale {
+		w.ghosts = append(w.ghosts, m) // its record may outlive the connection
+	}
 	for i, x := range w.clients {
 		if x == m {
 			w.clients = append(w.clients[:i], w.clients[i+1:]...)
@@ -292,7 +296,7 @@ func runA(raw json.RawMessage) *core.Violation {
 	dirty := false
 	t0 := time.Now()
 	defer func() {
-		if ids := fx.LeakedMutexes(0); len(ids) > 0 {
+		if ids := fx.LeakedMutexes(20 * time.Millisecond); w.anyDead && len(ids) > 0 {
 			fx.ForceUnlock(ids) // after the verdict: lets the handlers of this case end so the teamserver can be reused
 		}
 		t1 := time.Now()
@@ -348,12 +352,14 @@ func (w *world) afterOp(op Op) *core.Violation {
 		// with it set the same replay ends in hang|... at the next send)
 		return nil
 	}
-	ids := w.fx.LeakedMutexes(100 * time.Millisecond)
+	// (every operation is synchronous or has been synchronised on its last effect, so
+	// nobody can legitimately hold a client mutex here; the grace is only paranoia)
+	ids := w.fx.LeakedMutexes(5 * time.Millisecond)
 	if len(ids) == 0 {
 		return nil
 	}
 	how := "unknown"
-	for _, m := range w.clients {
+	for _, m := range append(append([]*mclient(nil), w.clients...), w.ghosts...) {
 		for _, id := range ids {
 			if m.id == id {
 				how = m.dead
